@@ -153,3 +153,35 @@ class ItemsMonitor(Monitor):
                 if sorted(set(t["offered"])) != list(range(t["n"])) and t.get("final") == "succeeded":
                     run.viol("C12", "items_not_all_offered", "task %s: offered %r of %d items although nothing failed"
                              % (key[0], t["offered"], t["n"]), subject=key[0])
+
+
+class ArrivalAtRunningItems(Monitor):
+    """cause tag for a recorded defect (see known_findings.json, F15): a completed task has a satisfied
+    transition into a with-items task that is currently running on the same route (its staged entry is
+    kept for item bookkeeping and the arrival is merged into it, wiping the item table).  Computed from
+    the state before the event and the recorded decision, not from the failure that follows."""
+    name = "arrival_items"
+
+    def on_init(self, run):
+        self.stats = dict(arrivals_at_running_items_task=0)
+
+    def on_call(self, run, ev):
+        if ev["op"] != "done":
+            return
+        a = ev.get("action") or {}
+        post, pre = ev["post"]["state"], ev["pre"]["state"]
+        idx = post["tasks"].get("%s__r%s" % (a.get("task"), a.get("route")))
+        if idx is None:
+            return
+        rec = post["sequence"][idx]
+        busy = {}
+        for s in pre["staged"]:
+            if any(it.get("status") in ("running", "requested", "scheduled", "delayed", "pausing", "canceling", "resuming")
+                   for it in s.get("items") or []):
+                busy[(s["id"], s["route"])] = s
+        if not busy:
+            return
+        for k, v in (rec.get("next") or {}).items():
+            if v and (k.rsplit("__t", 1)[0], rec["route"]) in busy and k.rsplit("__t", 1)[0] != a.get("task"):
+                self.stats["arrivals_at_running_items_task"] += 1
+                run.tags.add("arrival_at_running_items_task")
